@@ -15,7 +15,9 @@
 *)
 From Verif Require Import lib.MxC01 gen.FordGen model.Ford
      proofs.FordProofs proofs.FordSquareProofs proofs.FordSimProofs proofs.FordPathProofs proofs.FordLeadsProofs
-     proofs.FordDiscreteProofs proofs.FordExampleProofs.
+     proofs.FordDiscreteProofs proofs.FordExampleProofs
+     lib.MxScale gen.FordSteadyGen model.FordSteady proofs.FordSteadyProofs
+     lib.VarStmt gen.VariantListGen model.VariantList proofs.VariantListProofs.
 From mathcomp Require Import all_ssreflect all_algebra.
 Import GRing.Theory.
 Local Open Scope ring_scope.
@@ -344,3 +346,72 @@ Theorem C01_contracts_satisfiable :
       ts_Tg (@solve_transition (MCOps rat_fieldType) 1 1 1 exS exT exQ exZ exC exD) = exu *m exTa *m exu^T].
 Proof. exact: contracts_satisfiable. Qed.
 Print Assumptions C01_contracts_satisfiable.
+
+(* 11. Steady state of a model declared linear=True, flat=False (fords/steadiers.py::solve_steady_linear_nonflat; the twelve
+       blocks of the stacked matrices AB, FF, GG and the constant k are regenerated from the source, gen/FordSteadyGen.v).
+       Whatever lstsq returns: if (Xi, dXi, Y, dY) solves the two stacked systems, then levels + s * changes satisfy the
+       transition AND the measurement equations at every date (every scalar s, hence every integer t): the reported steady
+       state is a steady-state PATH.  With Theorem C01_steady_path_is_solution / C01_level_is_steady_path_plus_deviation this
+       is "level simulation = steady state + deviation simulation" for transition variables of such models ... *)
+Theorem C01_steady_nonflat_is_path :
+  forall (F : fieldType) (m n p : nat) (A B : 'M[F]_(m, n)) (C : 'cV[F]_m) (Fm : 'M[F]_p) (G : 'M[F]_(p, n)) (H : 'cV[F]_p)
+         (Xi dXi : 'cV[F]_n) (Y dY : 'cV[F]_p),
+  @nonflat_transition_rows (MCOps F) m n A B C Xi dXi = (0, 0) ->
+  @nonflat_measurement_rows (MCOps F) p n Fm G H Xi dXi Y dY = (0, 0) ->
+  forall s : F,
+  A *m (Xi + (s + 1) *: dXi) + B *m (Xi + s *: dXi) + C = 0 /\
+  Fm *m (Y + s *: dY) + G *m (Xi + s *: dXi) + H = 0.
+Proof. exact: nonflat_is_path. Qed.
+Print Assumptions C01_steady_nonflat_is_path.
+
+(* the same on the model's own path (level + t * change by repeated addition) at every date t = 0, 1, 2, ... *)
+Theorem C01_steady_nonflat_residuals_vanish :
+  forall (F : fieldType) (m n p : nat) (A B : 'M[F]_(m, n)) (C : 'cV[F]_m) (Fm : 'M[F]_p) (G : 'M[F]_(p, n)) (H : 'cV[F]_p)
+         (Xi dXi : 'cV[F]_n) (Y dY : 'cV[F]_p),
+  @nonflat_transition_rows (MCOps F) m n A B C Xi dXi = (0, 0) ->
+  @nonflat_measurement_rows (MCOps F) p n Fm G H Xi dXi Y dY = (0, 0) ->
+  forall t : nat,
+  @transition_residual_at (MCOps F) m n A B C Xi dXi t = 0 /\
+  @measurement_residual_at (MCOps F) p n Fm G H Xi dXi Y dY t = 0.
+Proof. exact: nonflat_residuals_vanish. Qed.
+Print Assumptions C01_steady_nonflat_residuals_vanish.
+
+(* ... and for measurement variables: a point of the steady-state path that satisfies the measurement equations is
+   reproduced by the solved measurement block (ybar = Z xbar + D), so the level simulation of a measurement variable
+   equals its steady-state value plus its deviation simulation, also along a growing steady state *)
+Theorem C01_measurement_level_is_steady_plus_deviation :
+  forall (F : fieldType) (nb nf ny nw : nat) (Fm : 'M[F]_ny) (Gm : 'M[F]_(ny, nf + nb)) (Hc : 'cV[F]_ny)
+         (Jm : 'M[F]_(ny, nw)) (Ua : 'M[F]_nb),
+  let ms := @solve_measurement (MCOps F) nb nf ny nw Fm Gm Hc Jm Ua in
+  Fm \in unitmx -> lsubmx Gm = 0 ->
+  forall (f : 'cV[F]_nf) (xbar d : 'cV[F]_nb) (ybar : 'cV[F]_ny) (w : 'cV[F]_nw),
+  Fm *m ybar + Gm *m col_mx f xbar + Hc = 0 ->
+  ms_Z ms *m (xbar + d) + ms_H ms *m w + ms_D ms = ybar + (ms_Z ms *m d + ms_H ms *m w).
+Proof. exact: measurement_level_is_steady_plus_deviation. Qed.
+Print Assumptions C01_measurement_level_is_steady_plus_deviation.
+
+(* 12. Parameter variants (has_variants.py::Mixin; the list-filling statement of expand_num_variants is regenerated from the
+       source, gen/VariantListGen.v).  After ANY history of alter_num_variants / assign calls on a model object the list of
+       variants never holds one Variant object twice ... *)
+Theorem C01_variants_never_alias :
+  forall ops : list vop, List.NoDup (vars (run ops init)).
+Proof. exact variants_never_alias. Qed.
+Print Assumptions C01_variants_never_alias.
+
+(* ... hence a per-variant assignment  assign(name=[v0, v1, ...])  leaves variant i with ITS value v_i (for every i, every
+   number of variants, every history), and touches no other name: the parameters that steady() and solve() read for
+   variant i -- and therefore the equations the simulated path of variant i has to satisfy -- are those assigned to it *)
+Theorem C01_variant_assignment_is_per_variant :
+  forall (ops : list vop) (name : nat) (vals : list BinNums.Z) (i : nat),
+  let st := run ops init in
+  (i < length (vars st))%coq_nat -> (i < length vals)%coq_nat ->
+  read (assign name vals st) i name = List.nth i vals BinNums.Z0 /\
+  (forall nm j, nm <> name -> read (assign name vals st) j nm = read st j nm).
+Proof. exact history_then_assign. Qed.
+Print Assumptions C01_variant_assignment_is_per_variant.
+
+(* the restriction to statements that copy once PER new variant cannot be dropped:  `+= [last.copy()] * count`  aliases *)
+Theorem C01_repeated_element_aliases_refuted :
+  ~ List.NoDup (vars (exec_expand (SExtendRepeat ECopyLast) 3 init)).
+Proof. exact extend_repeat_aliases. Qed.
+Print Assumptions C01_repeated_element_aliases_refuted.
